@@ -104,6 +104,14 @@ def gen_c02(r):
             p["incoming"] = False
             p.pop("connect_delay_ms", None)
     faults = r.choice([[], [], ["close"], ["http500"], ["garbage"], ["failure"], ["close", "failure"]])
+    for p in peers:
+        if not p["incoming"] and r.random() < 0.2:
+            p["host"] = "localhost"  # BEP3: "ip" may be a DNS name
+        if r.random() < 0.3:
+            p["id_hex"] = (b"-FK" + bytes(0x80 + r.randrange(0x40) for _ in range(17))).hex()  # ids are binary
+    if r.random() < 0.3:
+        # something connects in right at the start, never says a word and stays
+        peers.append(dict(port=7300, id="-FK0300-abcdefghijkl", incoming=True, have=[False] * n, seed=0, kind="mute", connect_delay_ms=r.choice([0, 50, 150]), hold_s=60))
     g.update(peers=peers, tracker_faults=faults, tracker_port=8000, timeout_s=90, stall_s=15, tracker_delivery=r.choice(["whole", "whole", "split", "chunked"]))
     return g
 
@@ -343,7 +351,7 @@ def _judge_cell(cid, tag, asan, sc, res, m, shapes):
     m["evaluations"] += 1
     v = res.get("verdict")
     desc = {k: sc[k] for k in ("piece_length", "files", "single", "tracker_faults")} | {k: sc[k] for k in ("tracker_delivery", "torrent_rel", "hostile_name") if k in sc}
-    desc["peers"] = [{k: p.get(k) for k in ("port", "host", "incoming", "chunk", "latency_ms", "choke_after_blocks", "disconnect_after_blocks", "mid_frame", "corrupt_permille", "noise_permille", "kind", "script", "connect_delay_ms", "handshake_delay_ms", "keepalive_every_s", "second_connection_from_own_port", "second_after_ms", "second_linger_ms") if p.get(k) is not None} | {"pieces": "".join("1" if b else "0" for b in p["have"])} for p in sc["peers"]]
+    desc["peers"] = [{k: p.get(k) for k in ("port", "host", "id_hex", "incoming", "chunk", "latency_ms", "choke_after_blocks", "disconnect_after_blocks", "mid_frame", "corrupt_permille", "noise_permille", "kind", "script", "connect_delay_ms", "handshake_delay_ms", "keepalive_every_s", "second_connection_from_own_port", "second_after_ms", "second_linger_ms") if p.get(k) is not None} | {"pieces": "".join("1" if b else "0" for b in p["have"])} for p in sc["peers"]]
     wit = {"engine": tag, "scenario": desc, "scenario_full": sc if len(json.dumps(sc)) < 200000 else None, "result": {k: res.get(k) for k in ("verdict", "detail", "elapsed_s", "panics", "sanitizer", "piece_problems", "hostile", "closed_by_client", "conn_life", "outside_start_dir", "peak_rss_kb", "log_tail", "stdout_tail")}}
     _count(m, "%s:%s" % (tag, v))
     if res.get("sanitizer"):
